@@ -14,6 +14,10 @@ let () = iter_lines (fun line ->
   | ["cururi"; scheme; host; root; path; qs] ->
       so (current_uri (nlist_of_csv scheme) (nlist_of_csv host) (opt root) (opt path)
             (if qs = "~" then None else Some (nlist_of_hex qs)))
+  | ["ghost"; scheme; hh; name; port] ->
+      (* host header, or ~ ; server name or ~ ; port as decimal text or ~ *)
+      let server = if name = "~" then None else Some (nlist_of_csv name, opt port) in
+      "ok " ^ csv_of_nlist (get_host (nlist_of_csv scheme) (opt hh) server)
   | "disp" :: path :: mounts ->
       (* mounts: key=id pairs *)
       let ms = List.map (fun kv -> match String.split_on_char '=' kv with
